@@ -47,7 +47,7 @@ func init() {
 			for _, rtl := range []int{0, 7200} {
 				p := Profile{JWTAccess: jwt, RTLifespan: rtl}
 				specs = append(specs, FamSpec{Prop: "C04", Profile: p, Depth: depth, MaxGrants: 2, Grants: grants,
-					RedeemBy: []string{"owner"}, RefreshBy: []string{"owner", "other"}, RevokeBy: []string{"owner"}, Hints: []string{""},
+					RedeemBy: []string{"owner"}, RefreshBy: []string{"owner", "other", "other-public"}, RevokeBy: []string{"owner"}, Hints: []string{""},
 					Advances: []int{3700, 7300}})
 			}
 		}
@@ -87,7 +87,7 @@ func init() {
 		for _, jwt := range []bool{false, true} {
 			p := Profile{JWTAccess: jwt, RTLifespan: 7200}
 			specs = append(specs, FamSpec{Prop: "C08", Profile: p, Depth: depth, MaxGrants: 2, Grants: grants,
-				RedeemBy: []string{"owner"}, RefreshBy: []string{"owner"}, RevokeBy: []string{"owner", "other", "casevariant", "badsecret", "owner-forged"}, Hints: []string{"", "access_token", "refresh_token", "garbage", "id_token", "authorize_code"},
+				RedeemBy: []string{"owner"}, RefreshBy: []string{"owner"}, RevokeBy: []string{"owner", "other", "casevariant", "other-public", "badsecret", "owner-forged"}, Hints: []string{"", "access_token", "refresh_token", "garbage", "id_token", "authorize_code"},
 				Advances: []int{3700}})
 		}
 		// an application revocation handler registered in front of the library's (one level shallower)
